@@ -56,7 +56,7 @@ def gen(rng):
     wm = world.gen_world_model(rng, structured=structured, use_cache=rng.choice([True, None, False]), nfiles=rng.randrange(1, 4),
                                sizes=rng.choice([["tiny", "tiny", "k8"]] * 4 + [["tiny", "k8"], ["tiny", "k64", "k160"], ["tiny", "k160", "k256"]]),
                                p_have=0.3, max_stmts=4, min_missing=1, shapes=shapes,
-                               lock=rng.choice(["absent", "ahead"]))
+                               lock=rng.choice(["absent", "ahead"]), big_p=0.006)
     tags = set()
     # directives in front of some statements
     for p, segs in wm["files"].items():
